@@ -158,13 +158,18 @@ def violation_sigs(mod, model, wd):
     return [v["sig"] for v in out.get("violations", [])], out, results
 
 
-def shrink(mod, model, sig, wd, max_runs=600, log=None):
-    """Greedy structural minimisation: keep a candidate iff the same signature persists."""
+def shrink(mod, model, sig, wd, max_runs=600, log=None, deadline=None):
+    """Greedy structural minimisation: keep a candidate iff the same signature persists.
+    Bounded by a number of candidate runs and by a wall-clock deadline (a broken tree can make
+    every candidate slow, e.g. a REPL that no longer answers)."""
     runs = 0
     improved = True
     while improved and runs < max_runs:
         improved = False
         for cand in mod.shrink(model):
+            if deadline is not None and time.time() > deadline:
+                runs = max_runs
+                break
             runs += 1
             try:
                 sigs, _, _ = violation_sigs(mod, cand, wd)
@@ -356,6 +361,7 @@ def campaign(mod, tier, seed, workers=None, max_runs=None, time_cap=None, out=sy
             e, n = known_hit[ksig]
             log("KNOWN-FINDING: property=%s %s [signature %s, %d occurrences]" % (mod.ID, e.get("what", ""), ksig, n))
         reported = []
+        shrink_deadline = time.time() + budget.get("shrink_seconds", 120 if tier == "quick" else 900)
         for sig in new_sigs[: budget.get("max_reports", 6)]:
             i, v = by_sig[sig][0]
             log("violation signature %s (first at run %d, %d occurrences): %s" % (sig, i, len(by_sig[sig]), v["msg"][:400]))
@@ -366,7 +372,7 @@ def campaign(mod, tier, seed, workers=None, max_runs=None, time_cap=None, out=sy
             sigs, _, _ = violation_sigs(mod, model, wd)
             if sig not in sigs:
                 raise build.HarnessError("violation %s of run %d did not reproduce" % (sig, i))
-            small = shrink(mod, model, sig, wd, max_runs=budget.get("shrink_runs", 400), log=log)
+            small = shrink(mod, model, sig, wd, max_runs=budget.get("shrink_runs", 400), log=log, deadline=shrink_deadline)
             path = write_replay(mod, small, sig, v["msg"], seed, i, wd)
             sigs, _, _ = violation_sigs(mod, small, wd)
             if sig not in sigs:
